@@ -85,17 +85,17 @@ func init() {
 		or := func(x *Ctx, in Input, a *Analysis, c Cfg, r *Res) bool {
 			return oracleC05(x, in, a, c, r) >= 2
 		}
-		g := gridSpec{P1: allP1, P2: allP2, P4: []int{0, 1, 2, 3, 4}, P5: []int{1, 2, 3}, SZ: []int{1, 2}}.list()
+		g := gridSpec{P1: allP1, P2: allP2, P4: []int{0, 1, 2, 3, 4}, P5: []int{1, 2, 3}, SZ: []int{1, 2, 9}}.list()
 		gs := gridSpec{P1: allP1, P2: allP2, P4: []int{0, 1, 2, 3, 4}, P5: []int{4}, SZ: []int{1, 2}}.list()
-		g5 := gridSpec{P1: allP1, P2: allP2, P4: []int{0, 4}, P5: []int{2, 3}, SZ: []int{2}}.list()
+		g5 := gridSpec{P1: allP1, P2: allP2, P4: []int{0, 1, 2, 4}, P5: []int{2, 3}, SZ: []int{2, 9}}.list()
 		d := tierPick(tier, 4, 5)
 		ps := []*Pass{
 			{Name: "G-grid", Space: spaceG(1, d, 0, nil), Eval: stdEval("C05", staticGrid(g), or),
-				Bound: fmt.Sprintf("all edge lists with <=%d edges x {greedy,dfs} x {ns,lp} x {sink,valign,packright,ns,bk} x {straight,polyline,ortho} x {fixed,per-node}", d)},
+				Bound: fmt.Sprintf("all edge lists with <=%d edges x {greedy,dfs} x {ns,lp} x {sink,valign,packright,ns,bk} x {straight,polyline,ortho} x {fixed, per-node even widths, per-node mixed-parity widths (centres on halves)}", d)},
 			{Name: "G-splines", BudgetS: 5, HeapMB: 256, Space: spaceG(1, d-1, 0, nil), Eval: stdEval("C05", staticGrid(gs), or),
 				Bound: fmt.Sprintf("all edge lists with <=%d edges x ... x splines", d-1)},
 			{Name: "G-deep", Space: spaceG(d+1, d+1, tierPick(tier, 0, 5), nil), Eval: stdEval("C05", staticGrid(g5), or),
-				Bound: fmt.Sprintf("all edge lists with %d edges x {greedy,dfs} x {ns,lp} x {sink,bk} x {polyline,ortho} x per-node", d+1)},
+				Bound: fmt.Sprintf("all edge lists with %d edges x {greedy,dfs} x {ns,lp} x {sink,valign,packright,bk} x {polyline,ortho} x per-node sizes (even and mixed-parity widths)", d+1)},
 			{Name: "G-random-greedy", Space: spaceG(1, 4, 0, cyclic), Eval: stdEval("C05", staticGrid(gridSpec{P1: []int{2}, P2: allP2, P4: []int{0}, P5: []int{2}, SZ: []int{2}}.list()), or),
 				Bound: "all cyclic edge lists with <=4 edges x greedy-random with every RNG answer sequence"},
 			{Name: "macro-3", Space: spaceMacro(3, false), Eval: stdEval("C05", staticGrid(gridSpec{P1: []int{0}, P2: allP2, P4: []int{0, 4}, P5: []int{2, 3}, SZ: []int{2}}.list()), or),
@@ -184,6 +184,8 @@ func init() {
 				Bound: "all states within 1 (thorough 2) edit operations of the recorded witnesses"},
 			{Name: "families", Space: spaceList(c10Families()), Eval: stdEval("C10", staticGrid(gd), or),
 				Bound: "K(a,b) a,b<=5, ladders, binary trees, chains with cross links (optimality by dual certificate only)"},
+			{Name: "parallel-chains", Space: spaceList(thetaFamilies(tierPick(tier, 5, 4), tier == "thorough")), Eval: stdEval("C10", staticGrid(gd), or),
+				Bound: "two paths with 1..5 edges each (thorough: three with 1..4) between a top and a bottom node + at most one extra node attached by two edges at every pair of nodes, 10 edge-list orders each (layerings with slack: what normalisation and balancing act on)"},
 		}
 		if tier == "thorough" {
 			ps = append(ps,
